@@ -10,7 +10,7 @@ use crate::family::{self, Fam, FamVisitor};
 use crate::model_ser::{to_model, SV};
 use crate::sx::walk;
 
-pub const RULE: &str = "cases are (a) generated values x of the 60+-type family (integers of every width incl. 128-bit beyond 64 bits, floats incl. non-finite ones, strings, options, sequences, maps with every key kind incl. 128-bit keys, structs, all enum shapes, flatten, bytes): to_value(x) must equal from_str::<Value>(to_string(x)); from_value(to_value(x)) == x; from_str(to_string(x)) == x; where one route fails the other must show the documented counterpart (non-finite float: text writes null / DOM errs; integer outside [i64::MIN, u64::MAX]: text writes digits / DOM errs; 128-bit map key: text quotes it / DOM errs; non-scalar key: both err); (b) DOM pairs for the equality laws: a parsed document (incl. duplicate keys), the same document with permuted members, the same value built from serde_json::Value through to_value, rebuilt with Array/Object/From conversions, and parsed-then-mutated-back (owned form), plus a near-equal variant: reflexive, equal to its clone, symmetric for every pair, insensitive to member order and construction; Value::from(p) == p and (Value::from(p)==Value::from(q)) == (p==q) for primitives. Non-trivial = x contains a map, an enum, a 128-bit integer or a float / a document with a container of >= 2 members; distinct by case bytes.";
+pub const RULE: &str = "cases are (a) generated values x of the 71-type family (incl. field/variant names that need escaping, newtype variants with nullable payloads) (integers of every width incl. 128-bit beyond 64 bits, floats incl. non-finite ones, strings, options, sequences, maps with every key kind incl. 128-bit keys, structs, all enum shapes, flatten, bytes): to_value(x) must equal from_str::<Value>(to_string(x)); from_value(to_value(x)) == x; from_str(to_string(x)) == x; where one route fails the other must show the documented counterpart (non-finite float: text writes null / DOM errs; integer outside [i64::MIN, u64::MAX]: text writes digits / DOM errs; 128-bit map key: text quotes it / DOM errs; non-scalar key: both err); (b) DOM pairs for the equality laws: a parsed document (incl. duplicate keys), the same document with permuted members, the same value built from serde_json::Value through to_value, rebuilt with Array/Object/From conversions, and parsed-then-mutated-back (owned form), plus a near-equal variant: reflexive, equal to its clone, symmetric for every pair, insensitive to member order and construction; Value::from(p) == p and (Value::from(p)==Value::from(q)) == (p==q) for primitives. Non-trivial = x contains a map, an enum, a 128-bit integer or a float / a document with a container of >= 2 members; distinct by case bytes.";
 pub const ASSUMPTIONS: &[&str] = &["serde's data model; serde_json is used as referee only to discard values that do not round-trip through JSON in serde itself", "leg (a) for values containing an f32 is a listed known finding (F11) and excluded by signature"];
 
 fn dom_must_fail(sv: &SV, name: &str) -> Option<&'static str> {
@@ -163,6 +163,23 @@ pub fn oracle_special(case: &[u8], obs: &mut Obs) -> Result<(), Fail> {
                 for q in ints {
                     ensure!((Value::from(p) == Value::from(q)) == (p == q), "C19/laws/primitive", "Value::from({p}) == Value::from({q}) is {}", Value::from(p) == Value::from(q));
                 }
+            }
+            // the narrower primitive types compare through the same impls
+            macro_rules! prim {
+                ($($t:ty),*) => {$(
+                    for p in [<$t>::MIN, <$t>::MAX, 0 as $t, 1 as $t, 42 as $t] {
+                        let v = Value::from(p);
+                        ensure!(v == p && p == v, "C19/laws/primitive", "Value::from({p}{}) != {p}", stringify!($t));
+                        for q in [<$t>::MIN, <$t>::MAX, 0 as $t, 7 as $t, 42 as $t] {
+                            ensure!((v == q) == (p == q) && (Value::from(q) == v) == (p == q), "C19/laws/primitive", "Value::from({p}{}) vs {q}: comparison disagrees with the primitives", stringify!($t));
+                        }
+                    }
+                )*};
+            }
+            prim!(i8, i16, i32, isize, u8, u16, u32, usize);
+            for (p, q) in [(1.5f32, 1.5f32), (0.5, 0.25), (-2.0, -2.0), (16777216.0, 16777216.0)] {
+                let v = Value::try_from(p).unwrap();
+                ensure!(v == p && (v == q) == (p == q), "C19/laws/primitive", "Value::try_from({p}f32) comparison with {q} disagrees");
             }
             let us: [u64; 5] = [0, 1, u64::MAX, i64::MAX as u64, i64::MAX as u64 + 1];
             for p in us {
